@@ -10,6 +10,10 @@
 package c06
 
 import (
+	"crypto"
+	"crypto/x509"
+	"embed"
+	"encoding/pem"
 	"net/http"
 	"net/url"
 	"strings"
@@ -56,18 +60,34 @@ func buildSpace() engine.Space {
 		engine.D("router", rig.Routers[0], rig.Routers[1]),
 		// overrides "key" when not "-": keeps slow signatures (RSA, P-384, P-521) out of the full product
 		engine.D("slowkey", "-", "ES384", "ES512", "RS256", "RS384", "RS512", "PS256", "PS384", "PS512"),
-		engine.D("skew", "0s", "5s", "1m0s"),
-		engine.D("idlt", "1h0m0s", "1m0s"),
-		engine.D("atlt", "5m0s", "1h0m0s"),
+		// degenerate corners appended in wave 3: 1 s skew, 1 s / 1 min lifetimes (ID lifetime != AT lifetime by default
+		// in every flow: 1h vs 5m). A negative skew is not enumerated: the provider then dates iat into the future and
+		// the library's own verifiers reject by design - the statement says nothing about such a configuration.
+		engine.D("skew", "0s", "5s", "1m0s", "1s"),
+		// 2 s is the shortest ID-token lifetime the library's RP verifier can accept at all: rp.NewIDTokenVerifier
+		// adds its default 1 s offset to the clock when it checks exp (a 1 s token is "expired" in the second it is issued)
+		engine.D("idlt", "1h0m0s", "1m0s", "2s"),
+		engine.D("atlt", "5m0s", "1h0m0s", "1m0s", "1s"),
 		engine.D("scopes", "ope", "o", "opa", "all", "oo", "oc", "opco", "pe", "oe-off"),
 		engine.D("uiassert", "off", "on"),
-		engine.D("private", "none", "x", "colliding"),
-		engine.D("issuer", "static", "static-althost", "host", "host-alt", "host-mixed"),
+		// "colliding-all": a custom claim for EVERY registered claim name of both token kinds (see evilClaims)
+		engine.D("private", "none", "x", "colliding", "colliding-all"),
+		// host-mixed: precursor legs on op.example, final request on alt.example; host-mixed-rev: the other way round
+		engine.D("issuer", "static", "static-althost", "host", "host-alt", "host-mixed", "host-mixed-rev"),
 		engine.D("caps", "all", "no-ui"),
 		engine.D("nonce", "n-1", "absent"),
 		engine.D("exvar", "idt", "rt", "at", "idt+aud", "at+aud"),
 		engine.D("rnarrow", "same", "drop-userinfo", "drop-openid"),
 		engine.D("probe", "none", "wrong-issuer", "wrong-client", "foreign-keys", "after-expiry", "before-expiry", "other-at", "other-crypto-key"),
+		// key history of the long-lived provider (every variant starts with a complete implicit id_token issuance
+		// and a GET /keys, so that anything memoised on first use is primed):
+		//  newkid-mid   precursor legs are signed with a previous key (other kid, other algorithm); the storage rotates
+		//               to the case's key right before the final request (code issuance -> exchange, login -> callback, ...)
+		//  samekid-pre  the priming issuance is signed with another key of the same algorithm under the SAME kid, then
+		//               the storage switches to the case's key (kid reused by the integrator)
+		//  twin-samekid the priming issuance happens on ANOTHER provider over another storage whose key has the same
+		//               kid and algorithm but different key material
+		engine.D("rotate", "none", "newkid-mid", "samekid-pre", "twin-samekid"),
 	}
 }
 
@@ -78,7 +98,7 @@ var thoroughTier bool
 // case decoding
 
 type caseT struct {
-	flow, attype, alg, router, scopesName, private, issuer, caps, nonce, exvar, rnarrow, probe string
+	flow, attype, alg, router, scopesName, private, issuer, caps, nonce, exvar, rnarrow, probe, rotate string
 	routerIdx                                                                               int
 	skew, idlt, atlt                                                                        time.Duration
 	uiassert                                                                                bool
@@ -88,7 +108,7 @@ type caseT struct {
 func decode(v engine.Vec) caseT {
 	g := func(n string) string { return space.Get(v, n) }
 	c := caseT{flow: g("flow"), attype: g("attype"), alg: g("key"), router: g("router"), scopesName: g("scopes"), private: g("private"),
-		issuer: g("issuer"), caps: g("caps"), nonce: g("nonce"), exvar: g("exvar"), rnarrow: g("rnarrow"), probe: g("probe")}
+		issuer: g("issuer"), caps: g("caps"), nonce: g("nonce"), exvar: g("exvar"), rnarrow: g("rnarrow"), probe: g("probe"), rotate: g("rotate")}
 	if r := g("slowkey"); r != "-" {
 		c.alg = r
 	}
@@ -163,9 +183,9 @@ func skip(v engine.Vec) bool {
 		if k := g("key"); k == "ES384" || k == "ES512" {
 			return true // quick: reached through "slowkey"
 		}
-		if sk := g("slowkey"); sk == "PS384" || sk == "PS512" {
-			return true
-		}
+	}
+	if is := g("issuer"); (is == "host-mixed" || is == "host-mixed-rev") && !mixable(flow, g("exvar"), g("attype")) {
+		return true // no precursor leg that may run under another host: same as host-alt / host
 	}
 	if nd("exvar") && !isEx(flow) {
 		return true
@@ -218,6 +238,7 @@ func skip(v engine.Vec) bool {
 type worker struct {
 	t    *testing.T
 	rigs map[string]*rig.Rig
+	twin *rig.Rig
 }
 
 type signPair struct {
@@ -252,6 +273,92 @@ func oldKey(alg string) *refstore.PubKey {
 	return &refstore.PubKey{KID: "old-1", Alg: a, Usage: "sig", Pub: k.PubForJose()}
 }
 
+// Additional committed fixtures of this check (second P-384 / P-521 key, third Ed25519 key):
+// the rig has only one key of these kinds and "same kid, other key material" needs two.
+//
+//go:embed testdata/*.pem
+var fixtures embed.FS
+
+func fixture(name string) crypto.Signer {
+	b, err := fixtures.ReadFile("testdata/" + name + ".pem")
+	if err != nil {
+		panic(err)
+	}
+	blk, _ := pem.Decode(b)
+	k, err := x509.ParsePKCS8PrivateKey(blk.Bytes)
+	if err != nil {
+		panic(err)
+	}
+	return k.(crypto.Signer)
+}
+
+// altCache: per algorithm a key of the SAME algorithm and the SAME kid as signCache but other key material.
+var altCache = func() map[string]signPair {
+	m := map[string]signPair{}
+	for _, a := range allAlgs {
+		var priv, pub any
+		switch {
+		case strings.HasPrefix(a, "RS"), strings.HasPrefix(a, "PS"):
+			priv, pub = keys.Get("rsa3").PrivForJose(), keys.Get("rsa3").PubForJose()
+		case a == "ES256":
+			priv, pub = keys.Get("p256c").PrivForJose(), keys.Get("p256c").PubForJose()
+		default:
+			s := fixture(map[string]string{"ES384": "p384b", "ES512": "p521b", "EdDSA": "ed3"}[a])
+			priv, pub = s, s.Public()
+		}
+		alg := jose.SignatureAlgorithm(a)
+		m[a] = signPair{&refstore.SignKey{KID: "cur-" + a, Alg: alg, Priv: priv}, &refstore.PubKey{KID: "cur-" + a, Alg: alg, Usage: "sig", Pub: pub}}
+	}
+	return m
+}()
+
+// prevPair: the key that signed before a rotation to a new kid: another algorithm (another hash for at_hash) and kid.
+func prevPair(alg string) signPair {
+	a, k := jose.ES256, keys.Get("p256a")
+	if alg == "ES256" {
+		a, k = jose.EdDSA, keys.Get("ed1")
+	}
+	kid := "prev-" + string(a)
+	return signPair{&refstore.SignKey{KID: kid, Alg: a, Priv: k.PrivForJose()}, &refstore.PubKey{KID: kid, Alg: a, Usage: "sig", Pub: k.PubForJose()}}
+}
+
+// keyPlan: what the storage signs with / publishes before and after the rotation of a case.
+type keyPlan struct {
+	pre, cur       *refstore.SignKey
+	prePub, curPub []*refstore.PubKey
+}
+
+func planFor(c caseT) keyPlan {
+	cur, old := signCache[c.alg], oldKey(c.alg)
+	p := keyPlan{pre: cur.sk, cur: cur.sk, prePub: []*refstore.PubKey{old, cur.pk}, curPub: []*refstore.PubKey{old, cur.pk}}
+	switch c.rotate {
+	case "newkid-mid":
+		prev := prevPair(c.alg)
+		p.pre, p.prePub = prev.sk, []*refstore.PubKey{old, prev.pk}
+		p.curPub = []*refstore.PubKey{old, prev.pk, cur.pk} // the previous key stays published (tokens it signed are still around)
+	case "samekid-pre":
+		alt := altCache[c.alg]
+		p.pre, p.prePub = alt.sk, []*refstore.PubKey{old, alt.pk}
+	}
+	return p
+}
+
+// twinRig: a second provider over its own storage; its signing key has the kid and algorithm of the case's key
+// but other key material.
+func (w *worker) twinRig(c caseT) *rig.Rig {
+	if w.twin == nil {
+		w.twin = rig.MustNew(rig.Opts{Options: []op.Option{
+			op.WithAccessTokenVerifierOpts(op.WithSupportedAccessTokenSigningAlgorithms(allAlgs...)),
+			op.WithIDTokenHintVerifierOpts(op.WithSupportedIDTokenHintSigningAlgorithms(allAlgs...)),
+		}})
+	}
+	alt := altCache[c.alg]
+	w.twin.Core.Cfg.Sign = alt.sk
+	w.twin.Core.Cfg.Published = []*refstore.PubKey{alt.pk}
+	w.twin.Core.Reset(refstore.NewState())
+	return w.twin
+}
+
 func (w *worker) rigFor(c caseT) *rig.Rig {
 	dyn := strings.HasPrefix(c.issuer, "host")
 	key := c.caps
@@ -277,18 +384,25 @@ func (w *worker) rigFor(c caseT) *rig.Rig {
 	return r
 }
 
+// evilClaims: one custom claim for every registered claim name of ID tokens and JWT access tokens
+// (oidc.TokenClaims, IDTokenClaims, AccessTokenClaims), each with the JSON type of the registered claim.
+var evilClaims = map[string]any{"iss": "https://evil.example", "sub": "evil", "aud": "evil", "exp": 1, "iat": 1, "nbf": 1, "jti": "evil",
+	"azp": "evil", "nonce": "evil", "auth_time": 1, "at_hash": "evil", "c_hash": "evil", "acr": "evil", "amr": []string{"evil"},
+	"sid": "evil", "client_id": "evil", "scope": "evil", "act": map[string]any{"sub": "evil"}, "x": 1}
+
 var privateSets = map[string]map[string]any{
 	"none": nil,
 	"x":    {"x": 1},
 	"colliding": {"iss": "https://evil.example", "sub": "evil", "aud": "evil", "exp": 1, "iat": 1, "nbf": 1, "azp": "evil",
 		"client_id": "evil", "jti": "evil", "x": 1},
+	"colliding-all": evilClaims,
 }
 
-func (w *worker) configure(r *rig.Rig, c caseT) {
+func (w *worker) configure(r *rig.Rig, c caseT) keyPlan {
 	cfg := r.Core.Cfg
-	sp := signCache[c.alg]
-	cfg.Sign = sp.sk
-	cfg.Published = []*refstore.PubKey{oldKey(c.alg), sp.pk}
+	plan := planFor(c)
+	cfg.Sign = plan.pre
+	cfg.Published = plan.prePub
 	at := op.AccessTokenTypeBearer
 	if c.attype == "jwt" {
 		at = op.AccessTokenTypeJWT
@@ -302,6 +416,7 @@ func (w *worker) configure(r *rig.Rig, c caseT) {
 	cfg.PrivateClaims = privateSets[c.private]
 	cfg.ExtraUserinfo = privateSets[c.private]
 	r.Core.Reset(refstore.NewState())
+	return plan
 }
 
 // ---------------------------------------------------------------------------
@@ -309,23 +424,82 @@ func (w *worker) configure(r *rig.Rig, c caseT) {
 
 type driver struct {
 	r      *rig.Rig
+	twin   *rig.Rig // only for rotate=twin-samekid
 	c      caseT
 	router int
+	plan   keyPlan
+}
+
+// mixable: the flow has a precursor leg that a provider with op.IssuerFromHost must serve under another Host than
+// the final request. A token exchange whose subject token is an ID token or a JWT access token is not: the subject
+// token names the issuer of the leg that issued it and the exchange under another issuer rightly refuses it.
+func mixable(flow, exvar, attype string) bool {
+	switch flow {
+	case "code", "refresh", "device", "implicit-id", "implicit-idtoken":
+		return true
+	case "ex-access", "ex-refresh", "ex-id":
+		v := strings.TrimSuffix(exvar, "+aud")
+		return v == "rt" || (v == "at" && attype == "opaque")
+	}
+	return false
 }
 
 // hostFor returns the Host header for a request; final=false is a precursor leg.
 func (d *driver) hostFor(final bool) string {
+	mix := mixable(d.c.flow, d.c.exvar, d.c.attype)
 	switch d.c.issuer {
 	case "static-althost", "host-alt":
 		return altHost
 	case "host-mixed":
-		mixedFlow := d.c.flow == "code" || d.c.flow == "refresh" || d.c.flow == "device"
-		if final || !mixedFlow {
+		if final || !mix {
 			return altHost
 		}
 		return rig.Host
+	case "host-mixed-rev":
+		if final || !mix {
+			return rig.Host
+		}
+		return altHost
 	}
 	return rig.Host
+}
+
+// rotateNow: the storage starts signing with the case's key and publishes it.
+func (d *driver) rotateNow() {
+	d.r.Core.Cfg.Sign, d.r.Core.Cfg.Published = d.plan.cur, d.plan.curPub
+}
+
+// prime runs one complete implicit id_token issuance on rg (signing an ID token with rg's current key) and, on the
+// provider under test, reads /keys like a polling relying party. Returns "" or the step that failed.
+func (d *driver) prime(rg *rig.Rig) (string, *rig.Resp) {
+	do := func(req *http.Request) *rig.Resp {
+		req.Host = d.hostFor(false)
+		return rg.Do(d.router, req)
+	}
+	q := url.Values{"client_id": {"web"}, "redirect_uri": {"https://rp.example/cb"}, "response_type": {"id_token"},
+		"scope": {"openid"}, "state": {"st-0"}, "nonce": {"n-prime"}}
+	resp := do(rig.Req("GET", "/authorize", q, nil))
+	u := resp.Location()
+	if resp.Status/100 != 3 || u == nil || !strings.HasPrefix(u.Path, "/login") {
+		return "prime-authorize", resp
+	}
+	id := u.Query().Get("authRequestID")
+	time.Sleep(time.Second)
+	if err := rg.Core.Login(id, "u2"); err != nil {
+		return "prime-login", resp
+	}
+	time.Sleep(time.Second)
+	resp = do(rig.Req("GET", "/authorize/callback", url.Values{"id": {id}}, nil))
+	if fragmentParams(resp)["id_token"] == "" {
+		return "prime-callback", resp
+	}
+	if rg == d.r {
+		if resp = do(rig.Req("GET", "/keys", nil, nil)); resp.Status != 200 {
+			return "prime-keys", resp
+		}
+	}
+	time.Sleep(time.Second)
+	return "", nil
 }
 
 func (d *driver) expectedIssuer() string {
@@ -449,8 +623,24 @@ func (d *driver) run() (o flowOut) {
 	o.exp.issuer = d.expectedIssuer()
 	e := &o.exp
 	mark := func() {
+		if c.rotate == "newkid-mid" {
+			d.rotateNow()
+		}
 		o.now = time.Now()
 		o.before = tokenIDs(d.r.Core.St)
+	}
+	if c.rotate != "none" {
+		rg := d.r
+		if c.rotate == "twin-samekid" {
+			rg = d.twin
+		}
+		if stage, resp := d.prime(rg); stage != "" {
+			o.stage, o.resp = stage, resp
+			return
+		}
+		if c.rotate == "samekid-pre" {
+			d.rotateNow()
+		}
 	}
 	switch c.flow {
 	case "code":
@@ -587,7 +777,9 @@ func (d *driver) run() (o flowOut) {
 			return
 		}
 		o.otherAT = tr.Str("access_token")
-		time.Sleep(20 * time.Second)
+		if c.idlt >= 30*time.Second && c.atlt >= 30*time.Second {
+			time.Sleep(20 * time.Second) // otherwise the subject token would be expired: exchange in the same second
+		}
 		f := url.Values{"grant_type": {string(oidc.GrantTypeTokenExchange)}, "scope": {strings.Join(c.scopes, " ")}}
 		switch strings.TrimSuffix(c.exvar, "+aud") {
 		case "at":
@@ -644,10 +836,14 @@ func has(l []string, s string) bool {
 func (w *worker) runCase(v engine.Vec) engine.Result {
 	c := decode(v)
 	r := w.rigFor(c)
-	w.configure(r, c)
+	plan := w.configure(r, c)
+	var twin *rig.Rig
+	if c.rotate == "twin-samekid" {
+		twin = w.twinRig(c)
+	}
 	var res engine.Result
 	pan := engine.Bubble(w.t, 1000*time.Hour, func() {
-		d := &driver{r: r, c: c, router: c.routerIdx}
+		d := &driver{r: r, twin: twin, c: c, router: c.routerIdx, plan: plan}
 		out := d.run()
 		res = judge(d, &out)
 	})
